@@ -121,7 +121,7 @@ def pipeline(tier):
             res["calls"][e["ev"]] = res["calls"].get(e["ev"], 0) + 1
     res["load_failures"] = [e for l in lines for e in l["events"] if e["ev"] == "LoadFailed"][:5]
     by_id = {l["id"]: l for l in lines}
-    cfgtxt = "SPECIFICATION Spec\nCONSTANTS\n  Repush = FALSE\n  HostCycles = \"standin\"\nINVARIANT Done\nCHECK_DEADLOCK FALSE\n"
+    cfgtxt = "SPECIFICATION Spec\nCONSTANTS\n  Repush = FALSE\n  HostCycles = \"none\"\nINVARIANT Done\nCHECK_DEADLOCK FALSE\n"
     with open(os.path.join(wd, "P.cfg"), "w") as f:
         f.write(cfgtxt)
     viols, n = vlib.eval_traces(SPEC, "PickleTraceP", os.path.join(wd, "P.cfg"),
